@@ -252,6 +252,7 @@ wait:
 		if q.BType != 0 && q.BType != 1 && q.BType != 3 {
 			q.BType = 1
 		}
+		q.Expect = stFor(q.Status, q.BType, q.Fail, false)
 		theP2.script[q.Xid+"/"+strconv.FormatInt(q.Branch, 10)] = q
 	}
 	theP2.mu.Unlock()
